@@ -178,9 +178,7 @@ def inferCompress (axis : Option Int) (x c : ITy) : Res :=
     if ct.e ≠ .bool then .err .inference
     else match xt.s with
       | none => .ok [some ⟨xt.e, none⟩]
-      | some [] => (match axis with
-          | some _ => .err .inference          -- ONNX: axis out of range for rank 0
-          | none => .ok [some ⟨xt.e, none⟩])
+      | some [] => .err .inference             -- ONNX's own inference rejects a rank-0 input
       | some ds =>
         if condRankBad ct.s then .err .inference
         else match axis with
